@@ -62,6 +62,10 @@ type SubQueueCreator[S SubQueue, O any] func(fileSystem fs.FileSystem, root stri
 type Opts[S SubQueue, O any] struct {
 	SubQueueCreator SubQueueCreator[S, O]
 	GetNodes        func(common.ShardID) []string
+	// Replicas, when set, is kept equal to the group's replica count by
+	// UpdateOptions, so a GetNodes closure that reads it places the copies of a
+	// shard according to the current group options, not the ones at open time.
+	Replicas        *atomic.Uint32
 	Metrics         storage.Metrics
 	MetricsFactory  observability.Factory
 	Option          O
@@ -98,6 +102,9 @@ func (q *Queue[S, O]) UpdateOptions(resourceOpts *commonv1.ResourceOpts) {
 	}
 	q.opts.SegmentInterval = si
 	q.opts.ShardNum = resourceOpts.ShardNum
+	if q.opts.Replicas != nil {
+		q.opts.Replicas.Store(resourceOpts.Replicas)
+	}
 }
 
 func (q *Queue[S, O]) getOpts() Opts[S, O] {
